@@ -118,7 +118,7 @@ func sandboxStream(sum *Summary, model *vd.Model, n int, seed int64) {
 	self, _ := os.Executable()
 	rng := rand.New(rand.NewSource(seed))
 	kinds := []string{"valid", "valid", "valid", "valid", "valid", "valid", "valid", "valid", "valid", "valid", "missing", "directory", "malformed", "wrong-type", "unknown-action", "unknown-syscall", "unknown-operation",
-		"empty-syscalls", "oversize", "no-command", "no-seccomp-key", "bad-argument-index", "no-arguments-key", "empty-arguments", "tsync-refused", "kernel-refuses", "duplicate-name", "with-and-without-conditions"}
+		"empty-syscalls", "oversize", "no-command", "no-seccomp-key", "bad-argument-index", "no-arguments-key", "empty-arguments", "tsync-refused", "kernel-refuses", "duplicate-name", "with-and-without-conditions", "group-without-action"}
 	strace, _ := exec.LookPath("strace")
 	for i := 0; i < n; i++ {
 		kind := kinds[rng.Intn(len(kinds))]
@@ -171,6 +171,8 @@ func sandboxStream(sum *Summary, model *vd.Model, n int, seed int64) {
 			kind = "unknown-syscall:" + bad
 		case "unknown-operation":
 			yml += "  - action: errno\n    names_with_args:\n    - name: getegid\n      arguments:\n      - argument: 0\n        operation: Equals\n        value: 1\n"
+		case "group-without-action":
+			yml += "  - names:\n    - getegid\n    - getuid\n"
 		case "duplicate-name":
 			yml += "  - action: errno\n    names:\n    - getegid\n    - getuid\n    - getegid\n"
 		case "with-and-without-conditions":
